@@ -312,29 +312,41 @@ def readErrCode : ReadErr → Code
   | .rd .gzHeader | .rd .gzChecksum | .cl .gzHeader | .cl .gzChecksum => .invalid
   | _ => .internal
 
-/-- WriteHandler.handleWrite (with decodeWriteRequest, queryOrganization, findBucket,
-    checkBucketWritePermissions, Parser.Parse, PointsWriter.WritePoints inlined in
-    the order of the code). -/
-def handle {Pt Ln : Type} (old : Bool) (P : Parser Pt Ln) (r : Req) (bufs : List Nat) : Resp Pt Ln :=
-  if !r.hasAuth then errResp .internal else
-  if !r.precisionOK then errResp .invalid else
-  if !r.bucketGiven then errResp .notFound else
-  if r.gzip && r.gzipOpen.isSome then errResp .plain else
+/-- The early returns of WriteHandler.handleWrite before the body is touched, in
+    the order of the code: pcontext.GetAuthorizer, decodeWriteRequest (precision,
+    bucket parameter, gzip.NewReader inside BatchReadCloser — a raw, non-platform
+    error), queryOrganization, findBucket, checkBucketWritePermissions. -/
+def gate (r : Req) : Option Code :=
+  if !r.hasAuth then some .internal else
+  if !r.precisionOK then some .invalid else
+  if !r.bucketGiven then some .notFound else
+  if r.gzip && r.gzipOpen.isSome then some .plain else
   match r.org with
-  | some c => errResp c
+  | some c => some c
   | none =>
   match findBucket r with
-  | some c => errResp c
-  | none =>
-  if !r.permitted then errResp .forbidden else
-  match (readAll old (openBody r.src r.limit) bufs).2 with
+  | some c => some c
+  | none => if !r.permitted then some .forbidden else none
+
+/-- Parser.parsePoints after readAll succeeded, then PointsWriter.WritePoints and
+    the status selection of handleWrite. -/
+def afterRead {Pt Ln : Type} (P : Parser Pt Ln) (w : WriterRes) (data : List Nat) : Resp Pt Ln :=
+  if !(P.bad data).isEmpty then { (errResp .invalid : Resp Pt Ln) with named := P.bad data } else
+  let pts := P.points data
+  match w with
+  | .ok => { status := 204, writes := [pts] }
+  | .partialWrite k => { (errResp .unprocessable : Resp Pt Ln) with dropped := some k, writes := [pts] }
+  | .fail => { (errResp .internal : Resp Pt Ln) with writes := [pts] }
+
+/-- the answer, given what reading the body gave (Parser.parsePoints' error mapping) -/
+def finish {Pt Ln : Type} (P : Parser Pt Ln) (w : WriterRes) : Except ReadErr (List Nat) → Resp Pt Ln
   | .error e => errResp (readErrCode e)
-  | .ok data =>
-    if !(P.bad data).isEmpty then { (errResp .invalid : Resp Pt Ln) with named := P.bad data } else
-    let pts := P.points data
-    match r.writer with
-    | .ok => { status := 204, writes := [pts] }
-    | .partialWrite k => { (errResp .unprocessable : Resp Pt Ln) with dropped := some k, writes := [pts] }
-    | .fail => { (errResp .internal : Resp Pt Ln) with writes := [pts] }
+  | .ok data => afterRead P w data
+
+/-- WriteHandler.handleWrite -/
+def handle {Pt Ln : Type} (old : Bool) (P : Parser Pt Ln) (r : Req) (bufs : List Nat) : Resp Pt Ln :=
+  match gate r with
+  | some c => errResp c
+  | none => finish P r.writer (readAll old (openBody r.src r.limit) bufs).2
 
 end Influx.WriteAPI
